@@ -312,3 +312,75 @@ var Seeds = []string{
 	"text T { \"abc\n  \" }",
 	"script S { foo(�) } # é\n",
 }
+
+// LintNameProgram: scripts whose inline texts / movements sit in poryswitch cases (so that the labels the compiler generates
+// depend on the switch values), followed by text / movement statements named like generated labels. With the default switches
+// V=A, W=B some of these names clash and some do not; the lint parser has no switches at all and selects the '_' cases.
+func LintNameProgram(r *Rng) string {
+	var b strings.Builder
+	names := []string{"S", "T", "U"}
+	nscripts := 1 + r.N(3)
+	k := 0
+	content := func() string {
+		k++
+		switch r.N(6) {
+		case 0, 1:
+			return "lock"
+		case 2:
+			return fmt.Sprintf("msgbox(\"t%d\")", k)
+		case 3:
+			return fmt.Sprintf("applymovement(1, moves(walk_up * %d))", 1+k%4)
+		case 4:
+			return fmt.Sprintf("msgbox(format(\"some words to format %d\"))", k%3)
+		}
+		return fmt.Sprintf("msgbox(ascii\"t%d\") msgbox(\"t%d\")", k, k)
+	}
+	for i := 0; i < nscripts; i++ {
+		fmt.Fprintf(&b, "script %s {\n", names[i])
+		for j := 0; j < 1+r.N(2); j++ {
+			if r.P(20) {
+				fmt.Fprintf(&b, " %s\n", content())
+				continue
+			}
+			sw, sel, other := "V", "A", "B"
+			if r.P(40) {
+				sw, sel, other = "W", "B", "A"
+			}
+			cases := []string{sel, "_", other}
+			if r.P(30) {
+				cases = cases[:2]
+			}
+			for x := len(cases) - 1; x > 0; x-- {
+				y := r.N(x + 1)
+				cases[x], cases[y] = cases[y], cases[x]
+			}
+			fmt.Fprintf(&b, " poryswitch(%s) {\n", sw)
+			for _, v := range cases {
+				if r.P(50) {
+					c := content()
+					if idx := strings.Index(c, ") "); idx >= 0 {
+						c = c[:idx+1]
+					}
+					fmt.Fprintf(&b, "  %s: %s\n", v, c)
+				} else {
+					fmt.Fprintf(&b, "  %s { %s }\n", v, content())
+				}
+			}
+			b.WriteString(" }\n")
+		}
+		b.WriteString("}\n")
+	}
+	for j := 0; j < 1+r.N(2); j++ {
+		n := names[r.N(nscripts)]
+		if r.P(60) {
+			fmt.Fprintf(&b, "text %s_Text_%d { \"user %d\" }\n", n, r.N(2), j)
+		} else {
+			fmt.Fprintf(&b, "movement %s_Movement_0 { walk_down }\n", n)
+		}
+	}
+	if r.P(20) {
+		// text position: the selected case decides the content, hence the sharing with inline texts
+		b.WriteString("text Shared { poryswitch(V) { A: \"t1\" _: \"t2\" } }\n")
+	}
+	return b.String()
+}
